@@ -187,6 +187,8 @@ class set_impl {
           "Attempting to deserialize set_impl using communicator of "
           "different size than serialized with");
     }
+    // No rank may return (and insert again) before every rank has loaded
+    m_comm.cf_barrier();
   }
 
   ygm::comm &comm() { return m_comm; }
